@@ -121,6 +121,9 @@ func Markers(ctx context.Context) []string {
 	if ctx.Value(rec.KeyRst) != nil {
 		m = append(m, "rst")
 	}
+	if ctx.Value(rec.KeyHot) != nil {
+		m = append(m, "hot")
+	}
 	sort.Strings(m)
 	if m == nil {
 		m = []string{}
